@@ -10,7 +10,7 @@ use super::sendbody::send_body_flow;
 use crate::driver::AnyFlow;
 use crate::engine::{explore, guarded, pattern, validate_traces, Limits, Report, Sys, Tier, Violation};
 
-pub const RULE: &str = "E1: for every N in 0..=12 the complete graph of the real sized writer: from every reachable state every write(i,b) with i,b in 0..=N+2, every consume_direct_write(k), k in 0..=N+2, readiness vs proceed-on-a-clone in every state. E2: every N in 0..=70000 (fresh flow with Content-Length: N) x boundary steps i,b,k in {0,1,N-1,N,N+1} from the initial state and from the states left in {N-1,1,0} reached by a direct-write report; large N in {2^16+-1,2^31+-1,2^32+-1,2^63,u64::MAX-1,u64::MAX}. distinct = distinct (N class, op, accepted/refused, left' class) cells";
+pub const RULE: &str = "E1: for every N in 0..=12 (POST) and N in 0..=3 (GET with send-body-despite-method) the complete graph of the real sized writer: from every reachable state every write(i,b) with i,b in 0..=N+2, every consume_direct_write(k), k in 0..=N+2, readiness vs proceed-on-a-clone in every state. E2: every N in 0..=70000 (fresh flow with Content-Length: N) x boundary steps i,b,k in {0,1,N-1,N,N+1} from the initial state and from the states left in {N-1,1,0} reached by a direct-write report; large N in {2^16+-1,2^31+-1,2^32+-1,2^63,u64::MAX-1,u64::MAX}. distinct = distinct (N class, op, accepted/refused, left' class) cells";
 
 #[derive(Clone, Debug, PartialEq)]
 pub enum Op {
@@ -150,6 +150,14 @@ impl Sys for St {
     }
     fn is_final(&self) -> bool {
         false
+    }
+}
+
+fn mk_flow(n: u64, despite: bool) -> Flow<(), SendBody> {
+    if despite {
+        super::sendbody::send_body_flow_despite_len("GET", n)
+    } else {
+        send_body_flow(Some(n))
     }
 }
 
@@ -304,12 +312,15 @@ fn large_n(n: u64, rep: &mut Report) {
 pub fn run(tier: Tier) -> Report {
     let mut rep = Report::new();
     // E1 complete graphs
-    let graphs: Vec<Report> = (0..=12u64)
+    let mut graph_jobs: Vec<(u64, bool)> = (0..=12u64).map(|n| (n, false)).collect();
+    // the same writer reached through send_body_despite_method() on a body-less method
+    graph_jobs.extend((0..=3u64).map(|n| (n, true)));
+    let graphs: Vec<Report> = graph_jobs
         .into_par_iter()
-        .map(|n| {
+        .map(|(n, despite)| {
             let mut rep = Report::new();
-            let _g = crate::engine::watch(|| format!("C04 graph N={}", n));
-            let fresh = || St { f: send_body_flow(Some(n)), n, left: n, signalled: false, max_arg: n as usize + 2 };
+            let _g = crate::engine::watch(|| format!("C04 graph N={} despite={}", n, despite));
+            let fresh = || St { f: mk_flow(n, despite), n, left: n, signalled: false, max_arg: n as usize + 2 };
             let ex = explore(fresh(), &Limits { max_states: 100_000, keep_state_traces: 6, ..Default::default() });
             rep.states += ex.states;
             rep.transitions += ex.transitions;
@@ -322,8 +333,8 @@ pub fn run(tier: Tier) -> Report {
                 rep.violation(Violation {
                     key: f.key.clone(),
                     ord: n * 100 + f.trace.len() as u64,
-                    what: format!("N={}: {} [ops {:?}]", n, f.what, f.trace),
-                    replay: json!({"kind": "ops", "n": n.to_string(), "ops": ops_json(&f.trace)}),
+                    what: format!("N={}{}: {} [ops {:?}]", n, if despite { " (GET + send_body_despite_method)" } else { "" }, f.what, f.trace),
+                    replay: json!({"kind": "ops", "n": n.to_string(), "despite": despite, "ops": ops_json(&f.trace)}),
                 });
             }
             if ex.found.is_empty() && !ex.cap_hit && n % 4 == 0 {
@@ -341,7 +352,7 @@ pub fn run(tier: Tier) -> Report {
             if n == 5 {
                 rep.sample(json!({"N": 5, "reachable_states": ex.states, "transitions": ex.transitions, "sample_trace": ex.state_traces.last().map(|t| format!("{:?}", t.0))}));
             }
-            rep.distinct_hash(&format!("graph|{}|{}", n, ex.states));
+            rep.distinct_hash(&format!("graph|{}|{}|{}", n, despite, ex.states));
             rep
         })
         .collect();
@@ -409,7 +420,7 @@ pub fn replay(v: &Value) -> Result<Option<String>, String> {
     let n: u64 = v["n"].as_str().ok_or("n")?.parse().map_err(|_| "n")?;
     match v["kind"].as_str().ok_or("kind")? {
         "ops" => {
-            let mut f = send_body_flow(Some(n));
+            let mut f = mk_flow(n, v["despite"].as_bool().unwrap_or(false));
             let mut left = n;
             let mut sig = false;
             let maxlen = 70_010usize;
